@@ -124,6 +124,32 @@ def sequential(rep, pool, work):
         for pmsg in probs:
             rep.violation(f"sequential {op} with cache={cs} pool={ps}: {pmsg}", inp, {"part": "sequential", "op": op, "what": pmsg.split(":")[0][:40]})
         shutil.rmtree(d, ignore_errors=True)
+    # contents that agree on their first MiB and differ afterwards (the comparison hashes a bounded prefix)
+    big = b"\0" * 1048576
+    for op in ("download_local", "upload_local", "download_link"):
+        n += 1
+        d = os.path.join(work, f"s{n}")
+        cache = os.path.join(d, "cache", "vm1", "image.qcow2")
+        poolf = os.path.join(d, "pool", "vm1", "image.qcow2")
+        _write(cache, big + b"tail-of-the-cache")
+        _write(poolf, big + b"tail-of-the-pool!")
+        src, dst = (poolf, cache) if op.startswith("download") else (cache, poolf)
+        before = _read(src)
+        exc = None
+        try:
+            getattr(pool.TransferOps, op)(cache, poolf, params)
+        except Exception as e:  # noqa: BLE001
+            exc = type(e).__name__
+        rep.transitions += 1
+        rep.distinct.add(("seq-big", op))
+        if op == "download_link":
+            if exc is None:
+                rep.violation(f"sequential {op} with contents equal in their first MiB but different afterwards: differing real data silently kept as if it matched",
+                              {"op": op, "contents": "1 MiB equal prefix + different tails"}, {"part": "sequential", "what": "prefix-only comparison", "op": op})
+        elif _read(dst) != before:
+            rep.violation(f"sequential {op} with contents equal in their first MiB but different afterwards: the copy was skipped, destination differs from the source",
+                          {"op": op, "contents": "1 MiB equal prefix + different tails"}, {"part": "sequential", "what": "prefix-only comparison", "op": op})
+        shutil.rmtree(d, ignore_errors=True)
     rep.sections["sequential_cells"] = n
     rep.sample({"sequential": {"cache": "B", "pool": "A", "op": "download_link", "expected": "RuntimeError, cache keeps B"}})
     return n
